@@ -13,8 +13,7 @@ c08race are supporting evidence only).
 -/
 import Verif.Lemmas.StateCacheConc
 import Verif.Lemmas.StateCacheWitness
-import Verif.Gen.StateCacheFacts
-import Verif.Gen.LockFacts
+import Verif.Model.StateCacheLocks
 namespace Verif.Props.C08
 open Verif.SC
 
@@ -108,11 +107,16 @@ theorem commit_serial {c : Conc K B V} {T : Tree K B V} (hI : Inv c.sc T none) (
   have h2 := holder j m' hj haj
   rw [h1] at h2; cases h2; rfl
 
-/-- `commit_lock_facts` (regenerated from the Go source on every run): `StateCache.commit` holds `sc.lock` for its whole
-    body (`sc.lock.Lock(); defer sc.lock.Unlock()` are its first statements) — the model's committer takes the lock at
-    `start` and releases it at `done` — and `StateCache.Get` takes no lock — the model's readers never block. -/
+/-- `commit_lock_facts` (table regenerated from the Go source on every run, per ACCESS): every access `StateCache.commit`
+    makes to the state cache's fields — the two LRUs, the counters; in its own body or in a helper it calls — happens with
+    `StateCache`'s mutex held exclusively, in one critical section (the model's committer takes the lock at `start` and
+    releases it at `done`; `commit_serial`), and inside a second lock that is not the state cache's own (the committing
+    block's `mu`: a writer to the block cannot interleave with its commit). `StateCache.Get` never takes or waits for a
+    mutex (the model's readers never block). Nothing is required of the statements that touch no shared field. -/
 theorem commit_lock_facts :
-    Verif.Gen.StateCacheFacts.commitLocksWholeBody = true ∧ Verif.Gen.StateCacheFacts.getTakesNoLock = true := by
+    Verif.SCLocks.commitOK Verif.Gen.LockFacts.stateCache_commit = true ∧
+    Verif.SCLocks.lockFree Verif.Gen.LockFacts.stateCache_Get = true ∧
+    Verif.SCLocks.guardedOK Verif.Gen.LockFacts.stateCache [] = true := by
   decide
 
 /-- `commit_published`: with ANY number of committer threads (serialised by `sc.lock`: a committer at `start` cannot step
@@ -153,34 +157,25 @@ example : (entryAt (twoCommitters.run [0, 1, 1, 0, 0, 1, 0, 0, 0, 1, 1, 1, 1, 1,
            (twoCommitters.run [0, 1, 1, 0, 0, 1, 0, 0, 0, 1, 1, 1, 1, 1, 1, 2, 2, 2]).results)
     = (some (.val 1), some (.val 2), [none, none, some (some 2)]) := by decide
 
-/-- a method takes the named mutex as its first statement, in the given mode, keeps it to the end of its body, and every
-    access it makes to a field of its receiver happens under it -/
-def holdsForWholeBody (m : Verif.Gen.LockFacts.Method) (mode : Verif.Gen.LockFacts.LockMode) (mutex : String) : Bool :=
-  m.lock == mode && m.mutex == mutex && m.preStmts == 0 && m.postStmts == 0 && m.sections == 1 &&
-  m.accesses.all (fun a => a.mode == mode)
-
-/-- `layer_lock_facts` (table regenerated by go/extract from the tree under test on every run): every method of the block
-    and transaction caches that touches their mutable state holds the cache's own mutex for its whole body —
-    `BlockCache.Get/Set/setValue/remove/SetBlockHash` hold `mu` (so `committed`, `blockHash`, `prevBlockHash` and the
-    pending map are never read while `commit` or `SetBlockHash` writes them), `TransactionCache.Set/Remove/Commit` hold
-    `mu` exclusively and `Get` shared; `StateCache.commit` holds `lock` exclusively from its first statement (deferred
-    unlock) for every access to the state cache's fields, and every one of those accesses is also under the committing
-    block cache's `bc.mu` (a writer to the block cannot interleave with its commit); `StateCache.Get` takes no lock (the model's readers never block).
-    The model treats every block / transaction cache operation as one atomic step on the strength of this table. -/
+/-- `layer_lock_facts` (table regenerated by go/extract from the tree under test on every run, per ACCESS): in the block
+    and transaction caches every read and every write of guarded state — the fields some method writes (the pending maps,
+    `blockHash`) and `committed`, which `commit` writes through its parameter — happens with the cache's own mutex held,
+    exclusively for writes, at least shared for reads, on the calling goroutine (`guardedOK`); every method that touches
+    guarded state does so in a single critical section (`atomicOK`), which is what lets the model treat each block /
+    transaction cache operation as one atomic step; and the operations the model has are in the table and do touch
+    guarded state (`present`). Fields nobody writes after construction (`main`, `prevBlockHash`, `round`) and the atomic
+    counters may be read anywhere; statements that touch no field of the receiver (a `Clone()` of the caller's argument
+    before the lock, a copy made for the caller after it) are unconstrained. -/
 theorem layer_lock_facts :
-    holdsForWholeBody Verif.Gen.LockFacts.blockCache_Get .write "mu" = true ∧
-    holdsForWholeBody Verif.Gen.LockFacts.blockCache_Set .write "mu" = true ∧
-    holdsForWholeBody Verif.Gen.LockFacts.blockCache_setValue .write "mu" = true ∧
-    holdsForWholeBody Verif.Gen.LockFacts.blockCache_remove .write "mu" = true ∧
-    holdsForWholeBody Verif.Gen.LockFacts.blockCache_SetBlockHash .write "mu" = true ∧
-    holdsForWholeBody Verif.Gen.LockFacts.transactionCache_Set .write "mu" = true ∧
-    holdsForWholeBody Verif.Gen.LockFacts.transactionCache_Remove .write "mu" = true ∧
-    holdsForWholeBody Verif.Gen.LockFacts.transactionCache_Commit .write "mu" = true ∧
-    holdsForWholeBody Verif.Gen.LockFacts.transactionCache_Get .read "mu" = true ∧
-    holdsForWholeBody Verif.Gen.LockFacts.stateCache_commit .write "lock" = true ∧
-    Verif.Gen.LockFacts.stateCache_commit.deferred = true ∧
-    Verif.Gen.LockFacts.stateCache_commit.accesses.all (fun a => a.sub == "bc.mu") = true ∧
-    Verif.Gen.LockFacts.stateCache_Get.lock = .none := by
+    Verif.SCLocks.guardedOK Verif.Gen.LockFacts.blockCache ["committed"] = true ∧
+    Verif.SCLocks.atomicOK Verif.Gen.LockFacts.blockCache ["committed"] = true ∧
+    (["Get", "Set", "setValue", "SetBlockHash"].all
+      (Verif.SCLocks.present Verif.Gen.LockFacts.blockCache ["committed"])) = true ∧
+    Verif.Gen.LockFacts.blockCacheInfo.fields.contains "committed" = true ∧
+    Verif.SCLocks.guardedOK Verif.Gen.LockFacts.transactionCache [] = true ∧
+    Verif.SCLocks.atomicOK Verif.Gen.LockFacts.transactionCache [] = true ∧
+    (["Get", "Set", "Remove", "Commit"].all
+      (Verif.SCLocks.present Verif.Gen.LockFacts.transactionCache [])) = true := by
   decide
 
 /-- the premise `Inv c.sc T none` is what any sequential history without eviction establishes -/
